@@ -185,7 +185,14 @@ def gen(run_seed: int, tier: str) -> dict:
                            "p": t.draw(1 << 16, "p")})
         else:
             events.append({"ev": "lint", "cmd": t.pick(CLI_CMDS, "cmd"), "config": t.pick([None, ".thailint.yaml", "alt/lint.yaml"], "cfg")})
-    return {"initial": initial, "events": events, "real_cli": t.chance(1, 16, "real"),
+    probe = False
+    if t.chance(1, 8, "wf_run"):
+        cands = [e for e in events if e["ev"] in ("set", "reset", "init")]
+        if cands:
+            e = t.pick(cands, "wf_ev")
+            e["write_fault"] = {"kind": t.pick(["enospc", "eio", "kill"], "wf_kind"), "after": t.pick([0, 1, 17, 200, 3000], "wf_after")}
+            probe = True
+    return {"initial": initial, "events": events, "real_cli": (not probe) and t.chance(1, 16, "real"),
             "project": {"src/app.py": "import os\n\n\ndef area(r):\n    if r > 3:\n        for i in range(r):\n            if i % 2:\n                while r < 42:\n                    r += 7\n    return r * 37\n",
                         "src/util.ts": "export function f(x: number): number {\n  return x * 99;\n}\n",
                         "src/lib.rs": "pub fn g(s: &str) -> usize {\n    s.parse::<usize>().unwrap()\n}\n"}}
@@ -303,7 +310,13 @@ class _Runner:
         return {"cwd": str(self.W.proj), "home": str(self.W.home), "tmp": str(self.W.tmp), "walk": "sorted",
                 "tape": {"seed": 0}, "tap": None}
 
-    def cli(self, argv: list[str]) -> dict:
+    def cli(self, argv: list[str], write_fault: dict | None = None) -> dict:
+        if write_fault:
+            wf = dict(write_fault, prefix=str(self.W.proj))
+            r = self.zy.call("vsim.ops:cli_call", {"env": self.env(), "argv": argv, "write_fault": wf}, timeout=300, exit="_exit")
+            if not r["ok"]:
+                return {"exit": None, "stdout": "", "stderr": r.get("exc") or "", "exc": r.get("exc_type") or r.get("kind"), "counters": {}}
+            return r["value"]
         if self.real:
             env = dict(os.environ, HOME=str(self.W.home), TMPDIR=str(self.W.tmp), PYTHONHASHSEED=str(self.sc.get("hashseed", 0)))
             r = subprocess.run([sys.executable, "-m", "src.cli"] + argv, cwd=str(self.W.proj), env=env, capture_output=True, text=True, timeout=300)
@@ -381,7 +394,9 @@ def _execute(zy, sc: dict, W: World, real: bool) -> dict:
     for i, ev in enumerate(sc["events"]):
         kind = ev["ev"]
         stats["cmds"].append(kind)
-        if kind == "init":
+        if ev.get("write_fault"):
+            _do_faulty(R, W, ev, stats, model)
+        elif kind == "init":
             _do_init(R, W, ev, failures, stats, note_write, i)
         elif kind == "set":
             _do_set(R, W, ev, failures, stats, note_write, model, i)
@@ -454,6 +469,45 @@ def _execute(zy, sc: dict, W: World, real: bool) -> dict:
     H = digest({"initial": sc["initial"], "events": sc["events"]})
     return {"failures": uniq, "stats": stats, "H": H, "C": digest(file_digests), "scenario": sc, "harness": None,
             "file_digests": file_digests}
+
+
+def _do_faulty(R, W, ev, stats, model):
+    """Probe only (the statement says nothing about I/O errors or crashes): inject a failing or
+    interrupted write into one command and record what it left on disk. Never a VIOLATION."""
+    kind = ev["ev"]
+    if kind == "init":
+        rel = ev["output"] or ".thailint.yaml"
+        argv = ["init-config", "--non-interactive"] + (["--preset", ev["preset"]] if ev["preset"] else []) + \
+               (["--force"] if ev["force"] else []) + (["--output", rel] if ev["output"] else [])
+        os.makedirs((W.proj / rel).parent, exist_ok=True)
+    elif kind == "set":
+        rel = ev["file"] or "config.yaml"
+        argv = (["--config", ev["file"]] if ev["file"] else []) + ["config", "set", "--", ev["key"], ev["value"]]
+        os.makedirs((W.proj / rel).parent, exist_ok=True)
+    else:
+        rel = ev["file"] or "config.yaml"
+        argv = (["--config", ev["file"]] if ev["file"] else []) + ["config", "reset", "--yes"]
+        os.makedirs((W.proj / rel).parent, exist_ok=True)
+    before = _read(W.proj / rel)
+    r = R.cli(argv, write_fault=ev["write_fault"])
+    after = _read(W.proj / rel)
+    fired = sum(v for k, v in (r.get("counters") or {}).items() if k.startswith("fault.write_")) or (1 if r["exit"] is None and ev["write_fault"]["kind"] == "kill" else 0)
+    if after == before:
+        outcome = "file-unchanged"
+    else:
+        doc, err = _parse_yaml_bytes(after) if not rel.endswith(".json") else (None, None)
+        if rel.endswith(".json"):
+            try:
+                doc = json.loads((after or b"").decode("utf-8"))
+            except Exception as e:
+                err = str(e)
+        if err is not None or (before is not None and not after):
+            outcome = "file-truncated-or-invalid"
+        else:
+            outcome = "file-rewritten-parseable"
+    stats.setdefault("write_fault_probes", []).append({"cmd": kind, "kind": ev["write_fault"]["kind"], "fired": bool(fired),
+                                                        "exit": r["exit"], "outcome": outcome, "had_content": before is not None})
+    model.pop(rel, None)
 
 
 def _do_init(R, W, ev, failures, stats, note_write, step):
@@ -625,6 +679,18 @@ def shrink(sc: dict):
 
 # ----------------------------------------------------------------------------- evidence
 
+def _probe_summary(runs):
+    from collections import Counter
+    probes = [p for r in runs for p in r["stats"].get("write_fault_probes", [])]
+    fired = [p for p in probes if p["fired"]]
+    return {"write_faults_injected": len(probes), "write_faults_fired": len(fired),
+            "by_kind": dict(Counter(p["kind"] for p in fired)),
+            "outcomes": dict(Counter(f"{p['cmd']}:{p['outcome']}" for p in fired)),
+            "user_file_left_truncated_or_invalid": sum(1 for p in fired if p["outcome"] == "file-truncated-or-invalid" and p["had_content"]),
+            "note": "outside the statement (it promises nothing about I/O errors or crashes; src/config.py advertises atomic writes "
+                    "but writes in place): counted, never a VIOLATION"}
+
+
 def evidence(outputs: list[dict], tier: str, seed: int) -> dict:
     from collections import Counter
     runs = [r for o in outputs for r in o["runs"]]
@@ -647,6 +713,7 @@ def evidence(outputs: list[dict], tier: str, seed: int) -> dict:
         "user_edits_applied": sum(r["stats"]["edits_applied"] for r in runs), "user_edits_skipped": sum(r["stats"]["edits_skipped"] for r in runs),
         "linter_commands_run_on_config": sum(r["stats"]["lint_runs"] for r in runs),
         "traces_validated_against_impl": sum(r["stats"].get("real_cli_histories", 0) for r in runs),
+        "exposure_probes": _probe_summary(runs),
         "simulated_events": sum(len(r["stats"]["cmds"]) for r in runs),
         "simulated_time": "not applicable: no clock in the code under test; reported as commands",
         "fault_kinds_fired": {"invalid_values_rejected": sum(r["stats"]["set_rejected"] for r in runs), "user_edits": sum(r["stats"]["edits_applied"] for r in runs)},
